@@ -30,6 +30,8 @@ func c04World() *ref.World {
 	f.MS = map[string]string{"a": "ma"}
 	f.MP = map[string]*facts.Sub{"a": {V: 10}}
 	f.K, f.KS = 0, "a"
+	f.MK = map[int64]int64{1: 10, 2: 11}
+	f.A3 = [3]int64{10, 11, 12}
 	f.Grid = [][]int64{{10, 11, 12}, {20, 21, 22}}
 	f.Book = map[string]map[string]int64{"a": {"x": 10, "y": 11}, "b": {"x": 20}}
 	w.Objs["F"] = f
@@ -57,6 +59,7 @@ func c04World() *ref.World {
 var c04Dests = []string{
 	"F.I", "F.I8", "F.I16", "F.I32", "F.In", "F.U", "F.U8", "F.U16", "F.U32", "F.Un", "F.F", "F.F32", "F.S", "F.B", "F.T", "F.PI",
 	"F.P.V", "F.P.S", "F.P.Q.V", "F.PArr[0].V", "F.Arr[1]", "F.Arr[F.K]", "F.SArr[0]", `F.M["a"]`, "F.M[F.KS]", `F.MS["a"]`, `F.MP["a"].V`,
+	"F.BI", "F.MK[1]", "F.MK[F.K + 2]", "F.A3[1]", "F.A3[F.K]", `J["n"]`, `J.o["n"]`,
 	"J.n", "J.o.n", "J.a[0]", "J.s", "N", "Name", "F.Grid[0][1]", "F.Grid[F.K][2]", `F.Book["a"]["x"]`, `F.Book[F.KS]["y"]`,
 }
 
